@@ -591,6 +591,56 @@ emit("x3", pcall(padded))
 
 func init() { c12Families = append(c12Families, c12CoFamilies...) }
 
+
+// twinsweep: one recursive function whose deepest frame evaluates an operation on the global V; with V = good the run
+// is fault-free, with V = bad the very same registers raise an ordinary run-time error.  The depth sweeps upwards
+// until the good twin no longer fits; for every depth at which it fits, the bad twin must report its ORDINARY
+// error (a program within the limits behaves the same under every configuration), in particular at the depth whose
+// deepest frame fills the registry exactly.  Run under consecutive registry sizes (see genC12ProgCase) so that
+// some (depth, size) pair is an exact fit.
+var c12TwinOps = [][3]string{
+	{"V + 1", "1", "nil"}, {"V.x", "{x = 1}", "nil"}, {"V .. 's'", "'a'", "nil"}, {"V < 1", "0", "nil"}, {"-V", "2", "{}"},
+	{"#V", "'abc'", "nil"}, {"V[1][2]", "{{3, 4}}", "{}"}, {"V % 3", "7", "'x'"},
+}
+
+func c12TwinSrc(n, m int) string {
+	op := c12TwinOps[m%len(c12TwinOps)]
+	pad := ""
+	for i := 0; i < (m/len(c12TwinOps))%4; i++ {
+		pad += fmt.Sprintf("local p%d = %d\n    ", i, i)
+	}
+	return fmt.Sprintf(`local function f(n)
+  if n == 0 then
+    %slocal x = %s
+    return x
+  end
+  local r = f(n - 1)
+  return r
+end
+local function run(v, d) V = v return pcall(f, d) end
+local bad, d, m1 = 0, 1, nil
+local ok1, r1, ok2, r2 -- declared up front: both twins are called from the same register
+while d <= 250 do
+  ok1, r1 = run(%s, d)
+  if not ok1 then m1 = r1 break end
+  ok2, r2 = run(%s, d)
+  if ok2 or type(r2) ~= "string" or string.find(r2, "overflow", 1, true) then
+    bad = bad + 1
+    emit("INV", "twin-depth-" .. d, false)
+  end
+  d = d + 1
+end
+emit("INV", "ordinary-error-whenever-the-fault-free-twin-fits", bad == 0)
+emit("lim", m1)
+V = %s
+emit("after", pcall(f, 3))
+return "end"`, pad, op[0], op[1], op[2], op[1])
+}
+
+func init() {
+	c12Families = append(c12Families, c12Family{"twinsweep", c12TwinSrc, 30000})
+}
+
 // ---------- configuration grid ----------
 
 var c12CS = []int{1, 2, 7, 8, 9, 16, 256}
@@ -669,7 +719,13 @@ func (c c12Cfg) estLimits() (cs, reg int) {
 func genC12ProgCase(r *Rng, ncfg int) []Op {
 	fam := r.Intn(len(c12Families))
 	if r.Chance(25) { // registry overflows inside coroutines get a fixed share of the cases
-		fam = len(c12Families) - len(c12CoFamilies) + r.Intn(len(c12CoFamilies))
+		for i, cf := range c12Families {
+			if cf.Name == c12CoFamilies[0].Name {
+				fam = i + r.Intn(len(c12CoFamilies))
+			}
+		}
+	} else if r.Chance(12) { // exact-fit sweeps too
+		fam = len(c12Families) - 1
 	}
 	f := c12Families[fam]
 	var cfgs []c12Cfg
@@ -707,6 +763,21 @@ func genC12ProgCase(r *Rng, ncfg int) []Op {
 				}
 			}
 			cfgs = append(cfgs, e)
+		}
+	}
+	if f.Name == "twinsweep" {
+		// consecutive registry limits (fixed registries, or growable ones with consecutive maxima)
+		cfgs = cfgs[:1]
+		base := r.Range(128, 600)
+		grow := r.Chance(40)
+		step := Pick(r, []int{1, 7, 32})
+		ctx := r.Chance(30)
+		for i := 0; i < 12; i++ {
+			c := c12Cfg{CS: 256, Min: false, RS: base + i, RMax: 0, Step: 32, Ctx: ctx}
+			if grow {
+				c = c12Cfg{CS: 256, Min: r.Bool(), RS: 128, RMax: base + i, Step: step, Ctx: ctx}
+			}
+			cfgs = append(cfgs, c)
 		}
 	}
 	// size: near a limit of one of the configurations (registers per frame differ by family, so sweep a window)
